@@ -18,7 +18,13 @@ def shards(spec):
                 out.append(('A', mname, sh))
     if spec.get('Z') is not None:
         out += [('Z', 'A0', sh) for sh in words.prefix_shards(SIGMA_Z, spec['Z'], 1)]
+    if spec.get('CR') is not None:
+        out += [('CR', 'D', sh) for sh in words.prefix_shards(SIGMA_CR, spec['CR'], 1)]
     return out
+
+
+# carriage returns / CRLF line ends / tabs next to comments, macros, paragraph breaks and groups
+SIGMA_CR = ['a', '\r', '\n', '\r\n', ' ', '\t', '%', '\\', '{', '}', '[', ']', '$']
 
 
 # custom context WITHOUT unknown-macro / unknown-environment fallback: unknown names in every position
@@ -37,6 +43,9 @@ def iter_shard(spec, shard):
     elif space == 'Z':
         for w in words.iter_shard(SIGMA_Z, spec['Z'], sh):
             yield words.render(SIGMA_Z, w), 'A0'
+    elif space == 'CR':
+        for w in words.iter_shard(SIGMA_CR, spec['CR'], sh):
+            yield words.render(SIGMA_CR, w), 'D'
     elif space == 'A':
         head = '\\' + x
         for w in words.iter_shard(SIGMA_X, spec['A'], sh):
@@ -56,4 +65,6 @@ def describe(spec):
     if spec.get('Z') is not None:
         parts.append('all words of length <= %d over 14 lexemes incl. unknown macro/environment names under the custom context '
                      'without unknown-macro fallback' % spec['Z'])
+    if spec.get('CR') is not None:
+        parts.append('all words of length <= %d over 13 lexemes with carriage return, CRLF and tab (default context)' % spec['CR'])
     return '; '.join(parts)
